@@ -228,17 +228,8 @@ func (c *Conn) Size() int {
 // Flush writes any buffered data to the underlying io.Writer.
 // This may result in data transfer less than the block size.
 func (c *Conn) Flush() error {
-	return c.flush(nil)
-}
-
-func (c *Conn) flush(t xmlstream.Encoder) error {
-	if t == nil {
-		c.writeLock.Lock()
-		defer c.writeLock.Unlock()
-		return c.writeBuf.Flush()
-	}
-
-	c.stanzaWriter.t = t
+	c.writeLock.Lock()
+	defer c.writeLock.Unlock()
 	return c.writeBuf.Flush()
 }
 
@@ -252,11 +243,14 @@ func (c *Conn) Close() error {
 	defer c.closeRead()
 
 	// Flush any remaining data to be written.
-	err := c.Flush()
-	if err != nil {
-		return err
+	// The base64 encoder and the stanza writer behind it belong to the write
+	// side just like the buffer: a Write on another goroutine may be using them.
+	c.writeLock.Lock()
+	err := c.writeBuf.Flush()
+	if err == nil {
+		err = c.closeFlushFunc()
 	}
-	err = c.closeFlushFunc()
+	c.writeLock.Unlock()
 	if err != nil {
 		return err
 	}
@@ -302,8 +296,23 @@ func (c *Conn) closeNoNotify(t xmlstream.Encoder) error {
 	}
 	defer c.closeRead()
 
-	// Flush any remaining data to be written.
-	err := c.flush(t)
+	// This runs on the goroutine that serves the session.
+	// If the application is in the middle of a Write or Flush it owns the write
+	// side, and it may be waiting for an acknowledgement that only this goroutine
+	// can deliver, so do not wait for it: the stream is closed, the write in
+	// progress is the last one and whatever is still buffered has nowhere to go.
+	if !c.writeLock.TryLock() {
+		return nil
+	}
+	defer c.writeLock.Unlock()
+
+	// Flush any remaining data to be written, using the encoder we were handed
+	// for as long as we hold the write side.
+	c.stanzaWriter.t = t
+	defer func() {
+		c.stanzaWriter.t = nil
+	}()
+	err := c.writeBuf.Flush()
 	if err != nil {
 		return err
 	}
